@@ -87,6 +87,7 @@ pub struct ActorDecl {
     pub stopped: Vec<SStep>,
     pub started_err_at: Vec<u32>,
     pub aux_work: u64,
+    pub tick_work: u64,
     pub aux_yield: bool,
     /// clients that get an `Addr` clone at setup
     pub holders: Vec<u16>,
@@ -111,6 +112,7 @@ impl ActorDecl {
             stopped: vec![],
             started_err_at: vec![],
             aux_work: 0,
+            tick_work: 0,
             aux_yield: false,
             holders: vec![0],
             owner: 0,
@@ -258,7 +260,7 @@ impl Program {
                 a.started.iter().map(ss).sum::<u64>() * 4
                     + a.stopped.iter().map(ss).sum::<u64>() * 4
                     + a.timeout.unwrap_or(0)
-                    + a.aux_work * 16
+                    + a.aux_work * 16 + a.tick_work * 16
                     + a.stream.as_ref().map(|s| s.bursts.iter().map(|b| b.0).sum::<u64>()).unwrap_or(0)
             })
             .sum();
